@@ -5,6 +5,7 @@ package main
 // signature, the RRSIG fields, the key and the RRset.
 
 import (
+	"os"
 	"crypto"
 	"crypto/ed25519"
 	"crypto/elliptic"
@@ -209,6 +210,8 @@ func hashLen(alg uint8) int {
 	}
 	return 0
 }
+
+var probeOutOfDomain = os.Getenv("VERIF_C14_PROBE") != ""
 
 type mutant struct {
 	name       string
@@ -506,6 +509,21 @@ func (w *world) mutations(rng *rand.Rand, b *base) []mutant {
 	}
 	if b.rrs[0].Header().Rrtype == dns.TypeTXT {
 		out = append(out, mutant{name: "rr-unpackable", key: b.key, sig: b.sig, rrs: b.rrs, unpackable: true})
+	}
+
+	// Out-of-domain probes (never part of a verdict run): names no wire message
+	// can put into these structs.
+	if probeOutOfDomain && b.zone != "." {
+		k := cloneKey(b.key)
+		s := cloneSig(b.sig)
+		k.Hdr.Name = strings.TrimSuffix(k.Hdr.Name, ".")
+		s.SignerName = strings.TrimSuffix(s.SignerName, ".")
+		out = append(out, mutant{name: "probe-names-without-trailing-dot", key: k, sig: s, rrs: b.rrs})
+		if i := strings.IndexAny(b.key.Hdr.Name, "kK"); i >= 0 {
+			k2 := cloneKey(b.key)
+			k2.Hdr.Name = k2.Hdr.Name[:i] + "\u212a" + k2.Hdr.Name[i+1:] // KELVIN SIGN folds to k
+			out = append(out, mutant{name: "probe-unicode-fold-in-key-owner", key: k2, sig: b.sig, rrs: b.rrs})
+		}
 	}
 
 	// ---- containment: owner inside the signer only by string suffix
